@@ -46,7 +46,7 @@ func vC18RaftLog(s *Server) (uint64, []vM) {
 		if op.Unmarshal(l.Data) != nil {
 			continue
 		}
-		e := vM{"i": i, "op": op.Op.String()}
+		e := vM{"i": i, "op": op.Op.String(), "dig": vC18OpDigest(op)}
 		if op.Op == proto.Op_PUBLISH_ACTIVITY {
 			e["pub"] = op.PublishActivityOp.RaftIndex
 		}
@@ -92,7 +92,7 @@ func vC18ReadActivity(v *vServer) ([]vM, error) {
 			if err := pb.Unmarshal(m.Value, ev); err != nil {
 				return nil, err
 			}
-			out = append(out, vM{"id": ev.Id, "op": ev.Op.String(), "off": m.Offset})
+			out = append(out, vM{"id": ev.Id, "op": ev.Op.String(), "off": m.Offset, "dig": vC18EventDigest(ev)})
 			if !idle.Stop() {
 				select {
 				case <-idle.C:
@@ -243,7 +243,13 @@ func TestVerifC18(t *testing.T) {
 	n := vEnvInt("VERIF_N", 4)
 	ctx := context.Background()
 	for id := 0; id < n; id++ {
-		srv := vStartServer(fmt.Sprintf("c18x%d", id), vC18Config)
+		cfgFn := vC18Config
+		if id == 3 {
+			// corpus 3: a consumer that joins and then stays silent is removed by the coordinator: the leave is
+			// committed with Expired set, and the event has to say so
+			cfgFn = func(cfg *Config) { vC18Config(cfg); cfg.Groups.ConsumerTimeout = 300 * time.Millisecond }
+		}
+		srv := vStartServer(fmt.Sprintf("c18x%d", id), cfgFn)
 		c := &vC18Case{srv: srv, history: map[uint64]vM{}, stats: stats}
 		c.settle()
 		c.note("start", nil)
@@ -292,8 +298,13 @@ func TestVerifC18(t *testing.T) {
 		} else if id == 2 {
 			forced, forcedTrailing = []int{0, 5, 0, 9, 5}, 0
 			quiescent = true
+		} else if id == 3 {
+			forced = []int{0, 10}
+			quiescent = true
+			nops = 0
 		}
-		for j := 0; j < nops+len(forced) && c.viol == ""; j++ {
+		total := nops + len(forced)
+		for j := 0; j < total && c.viol == ""; j++ {
 			k := r.pick(10, 4, 4, 4, 5, 3, 3, 3, 2, 3)
 			if len(forced) > 0 {
 				k = forced[0]
@@ -370,6 +381,11 @@ func TestVerifC18(t *testing.T) {
 				}
 				serr := rn.Snapshot().Error()
 				c.note("snapshot", vM{"ok": serr == nil})
+			case 10:
+				_, err = srv.api.JoinConsumerGroup(ctx, &client.JoinConsumerGroupRequest{GroupId: "gx", ConsumerId: "silent", Streams: []string{"a0"}})
+				c.note("join", vM{"g": "gx", "c": "silent", "ok": err == nil})
+				time.Sleep(1200 * time.Millisecond) // four consumer timeouts: the member has been expired
+				c.note("wait-for-expiry", nil)
 			case 9:
 				// a Raft snapshot while events wait to be published. With enough trailing log nothing they
 				// need is compacted: a dispatcher that starts later (restart, promotion) finds them in the log.
@@ -481,8 +497,63 @@ func (c *vC18Case) lastIndex() uint64 {
 }
 
 // vC18Oracle: the property's words on (committed operations, delivered events).
+// what an event has to say about its operation: names, partitions, flags, group, consumer
+func vC18OpDigest(op *proto.RaftLog) string {
+	switch op.Op {
+	case proto.Op_CREATE_STREAM:
+		var ids []int32
+		for _, p := range op.CreateStreamOp.Stream.Partitions {
+			ids = append(ids, p.Id)
+		}
+		return fmt.Sprintf("create|%s|%v", op.CreateStreamOp.Stream.Name, ids)
+	case proto.Op_DELETE_STREAM:
+		return fmt.Sprintf("delete|%s", op.DeleteStreamOp.Stream)
+	case proto.Op_PAUSE_STREAM:
+		return fmt.Sprintf("pause|%s|%v|%v", op.PauseStreamOp.Stream, op.PauseStreamOp.Partitions, op.PauseStreamOp.ResumeAll)
+	case proto.Op_RESUME_STREAM:
+		return fmt.Sprintf("resume|%s|%v", op.ResumeStreamOp.Stream, op.ResumeStreamOp.Partitions)
+	case proto.Op_SET_STREAM_READONLY:
+		return fmt.Sprintf("readonly|%s|%v|%v", op.SetStreamReadonlyOp.Stream, op.SetStreamReadonlyOp.Partitions, op.SetStreamReadonlyOp.Readonly)
+	case proto.Op_CREATE_CONSUMER_GROUP:
+		if ms := op.CreateConsumerGroupOp.ConsumerGroup.Members; len(ms) > 0 {
+			return fmt.Sprintf("join|%s|%s|%v", op.CreateConsumerGroupOp.ConsumerGroup.Id, ms[0].Id, ms[0].Streams)
+		}
+	case proto.Op_JOIN_CONSUMER_GROUP:
+		return fmt.Sprintf("join|%s|%s|%v", op.JoinConsumerGroupOp.GroupId, op.JoinConsumerGroupOp.ConsumerId, op.JoinConsumerGroupOp.Streams)
+	case proto.Op_LEAVE_CONSUMER_GROUP:
+		return fmt.Sprintf("leave|%s|%s|%v", op.LeaveConsumerGroupOp.GroupId, op.LeaveConsumerGroupOp.ConsumerId, op.LeaveConsumerGroupOp.Expired)
+	}
+	return ""
+}
+
+func vC18EventDigest(ev *client.ActivityStreamEvent) string {
+	switch {
+	case ev.CreateStreamOp != nil:
+		return fmt.Sprintf("create|%s|%v", ev.CreateStreamOp.Stream, ev.CreateStreamOp.Partitions)
+	case ev.DeleteStreamOp != nil:
+		return fmt.Sprintf("delete|%s", ev.DeleteStreamOp.Stream)
+	case ev.PauseStreamOp != nil:
+		return fmt.Sprintf("pause|%s|%v|%v", ev.PauseStreamOp.Stream, ev.PauseStreamOp.Partitions, ev.PauseStreamOp.ResumeAll)
+	case ev.ResumeStreamOp != nil:
+		return fmt.Sprintf("resume|%s|%v", ev.ResumeStreamOp.Stream, ev.ResumeStreamOp.Partitions)
+	case ev.SetStreamReadonlyOp != nil:
+		return fmt.Sprintf("readonly|%s|%v|%v", ev.SetStreamReadonlyOp.Stream, ev.SetStreamReadonlyOp.Partitions, ev.SetStreamReadonlyOp.Readonly)
+	case ev.JoinConsumerGroupOp != nil:
+		return fmt.Sprintf("join|%s|%s|%v", ev.JoinConsumerGroupOp.GroupId, ev.JoinConsumerGroupOp.ConsumerId, ev.JoinConsumerGroupOp.Streams)
+	case ev.LeaveConsumerGroupOp != nil:
+		return fmt.Sprintf("leave|%s|%s|%v", ev.LeaveConsumerGroupOp.GroupId, ev.LeaveConsumerGroupOp.ConsumerId, ev.LeaveConsumerGroupOp.Expired)
+	}
+	return ""
+}
+
 func vC18Oracle(c *vC18Case, hist []vM, events []vM) {
 	evOp := map[uint64]string{}
+	evDig := map[uint64]string{}
+	for _, e := range hist {
+		if d, ok := e["dig"].(string); ok {
+			evDig[e["i"].(uint64)] = d
+		}
+	}
 	var order []uint64
 	for _, e := range hist {
 		op := e["op"].(string)
@@ -501,6 +572,10 @@ func vC18Oracle(c *vC18Case, hist []vM, events []vM) {
 		want, ok := evOp[id]
 		if !ok {
 			c.violation("event-without-operation", fmt.Sprintf("the activity stream carries an event with id %d (%s); no stream or group operation was committed at that Raft index", id, ev["op"]))
+			return
+		}
+		if d, _ := ev["dig"].(string); want == ev["op"].(string) && evDig[id] != "" && d != evDig[id] {
+			c.violation("event-payload-differs", fmt.Sprintf("event id %d says %q; the operation committed at that index is %q", id, d, evDig[id]))
 			return
 		}
 		if want != ev["op"].(string) {
